@@ -247,6 +247,24 @@ struct ConnLog {
 struct Backend {
     addr: SocketAddr,
     logs: Arc<Mutex<Vec<ConnLog>>>,
+    /// highest barrier number seen (see `barrier`)
+    barrier_seen: Arc<AtomicU64>,
+}
+
+const BARRIER: &[u8] = b"BARRIER ";
+
+/// Connections are accepted in FIFO order and get their log entry (with the lane's current epoch) in the
+/// accept loop. A marker connection opened by the harness itself therefore proves, once its marker was read,
+/// that every connection sozu opened before it has been attributed to the current probe.
+fn barrier(b: &Backend, n: u64) -> bool {
+    let Ok(mut s) = TcpStream::connect_timeout(&b.addr, Duration::from_secs(2)) else { return false };
+    let _ = s.write_all(format!("BARRIER {n}\n").as_bytes());
+    let deadline = Instant::now() + Duration::from_secs(3);
+    while b.barrier_seen.load(Ordering::SeqCst) < n {
+        if Instant::now() >= deadline { return false; }
+        std::thread::sleep(Duration::from_micros(300));
+    }
+    true
 }
 
 fn spawn_backend(kind: &'static str, tag: String, epoch: Arc<AtomicU64>, stop: Arc<AtomicBool>) -> Backend {
@@ -257,6 +275,8 @@ fn spawn_backend(kind: &'static str, tag: String, epoch: Arc<AtomicU64>, stop: A
     let addr = listener.local_addr().unwrap();
     let logs: Arc<Mutex<Vec<ConnLog>>> = Arc::new(Mutex::new(Vec::new()));
     let logs2 = logs.clone();
+    let barrier_seen = Arc::new(AtomicU64::new(0));
+    let barrier_seen2 = barrier_seen.clone();
     std::thread::spawn(move || {
         for s in listener.incoming() {
             if stop.load(Ordering::Relaxed) { break; }
@@ -268,12 +288,29 @@ fn spawn_backend(kind: &'static str, tag: String, epoch: Arc<AtomicU64>, stop: A
             };
             let logs3 = logs2.clone();
             let tag = tag.clone();
+            let bs = barrier_seen2.clone();
             std::thread::spawn(move || {
+                // marker connection of the harness?
+                let mut peek = [0u8; 8];
+                s.set_read_timeout(Some(Duration::from_secs(20))).ok();
+                let mut got = 0;
+                while got < 8 {
+                    match s.peek(&mut peek) { Ok(0) | Err(_) => break, Ok(n) => { got = n; if n < 8 && peek[..n] != BARRIER[..n] { break; } if n < 8 { std::thread::sleep(Duration::from_micros(200)); } } }
+                }
+                if got >= 8 && &peek[..8] == BARRIER {
+                    let mut line = Vec::new();
+                    let mut b = [0u8; 64];
+                    while !line.contains(&b'\n') { match (&s).read(&mut b) { Ok(0) | Err(_) => break, Ok(n) => line.extend_from_slice(&b[..n]) } }
+                    let n: u64 = String::from_utf8_lossy(&line[8..]).trim().parse().unwrap_or(0);
+                    { let mut l = logs3.lock().unwrap(); l[idx].epoch = u64::MAX; l[idx].closed = true; }
+                    bs.fetch_max(n, Ordering::SeqCst);
+                    return;
+                }
                 if kind == "h2c" { serve_h2c(s, idx, logs3, tag) } else { serve_h1(s, idx, logs3, tag) }
             });
         }
     });
-    Backend { addr, logs }
+    Backend { addr, logs, barrier_seen }
 }
 
 fn serve_h1(mut s: TcpStream, idx: usize, logs: Arc<Mutex<Vec<ConnLog>>>, tag: String) {
@@ -692,7 +729,10 @@ struct BackObs {
 }
 
 fn collect_backend(lane: &Lane, epoch: u64, kind: &str, settle: Duration) -> BackObs {
-    // wait until every connection of this epoch was closed by sozu (deterministic end of the probe)
+    // every connection sozu opened so far is attributed (FIFO accept + marker connection) ...
+    let ba = barrier(&lane.back_a, epoch);
+    let bb = barrier(&lane.back_b, epoch);
+    // ... then wait until every connection of this epoch was closed by sozu (deterministic end of the probe)
     let deadline = Instant::now() + settle;
     loop {
         let open = [&lane.back_a, &lane.back_b].iter().map(|b| b.logs.lock().unwrap().iter().filter(|c| c.epoch == epoch && !c.closed).count()).sum::<usize>();
@@ -700,6 +740,7 @@ fn collect_backend(lane: &Lane, epoch: u64, kind: &str, settle: Duration) -> Bac
         std::thread::sleep(Duration::from_millis(2));
     }
     let mut obs = BackObs::default();
+    if !ba || !bb { obs.anomalies.push(("-".into(), 0, "harness-barrier-timeout".into(), String::new())); }
     for (cl, b) in [("A", &lane.back_a), ("B", &lane.back_b)] {
         let logs = b.logs.lock().unwrap();
         for (ci, c) in logs.iter().enumerate() {
@@ -919,7 +960,8 @@ fn concretise_h1(c: &Value, code: &Value, lane: &Lane, rng: &mut Rng) -> Concret
             "te:gzip" => { names.push("transfer-encoding".into()); format!("Transfer-Encoding: {}\r\n", rng.pick(&["gzip", "identity", "deflate", "chunke", "chunked-x"])) }
             "te:chunked,identity" => { names.push("transfer-encoding".into()); format!("Transfer-Encoding: {}\r\n", rng.pick(&["chunked, identity", "chunked,gzip", "chunked , deflate"])) }
             "te:gzip,chunked" => { names.push("transfer-encoding".into()); format!("Transfer-Encoding: {}\r\n", rng.pick(&["gzip, chunked", "gzip,chunked", "deflate, chunked"])) }
-            "te:xchunked" => { names.push("transfer-encoding".into()); format!("Transfer-Encoding: {}\r\n", rng.pick(&["xchunked", "x-chunked", "notchunked", "gzip chunked", "\"chunked"])) }
+            "te:xchunked" => { names.push("transfer-encoding".into()); format!("Transfer-Encoding: {}\r\n", rng.pick(&["xchunked", "x-chunked", "notchunked"])) }
+            "te:junk" => { names.push("transfer-encoding".into()); format!("Transfer-Encoding: {}\r\n", rng.pick(&["gzip chunked", "\"chunked", "gzip;chunked", "(chunked"])) }
             "obsfold" => match rng.below(3) { 0 => { names.push("x-fold".into()); "X-Fold: a\r\n b\r\n".to_string() }, 1 => { names.push("content-length".into()); "Content-Length: 5\r\n 3\r\n".to_string() }, _ => { names.push("transfer-encoding".into()); "Transfer-Encoding:\r\n\tchunked\r\n".to_string() } },
             "barelf" => { names.push("x-a".into()); match rng.below(3) { 0 => "X-A: b\nX-Injected: 1\r\n".to_string(), 1 => "X-A: b\n".to_string(), _ => "X-A: b\n\nGET /smuggled HTTP/1.1\r\n".to_string() } }
             "nul" => { names.push("x-a".into()); format!("X-A: b{}c\r\n", rng.pick(&["\u{0}", "\u{1}", "\u{7f}", "\u{b}"])) }
@@ -1121,6 +1163,11 @@ fn judge(lane: &Lane, case: &Value, conc: &Concrete, cobs: &ClientObs, bobs: &Ba
         else if !by.is_empty() { "fwd".into() }
         else { format!("r{}", first.trim_start_matches('~')) };
     let classes = strs(&adm["classes"]);
+    // A request whose Content-Length body is complete may be delivered - and even answered - before the frame that
+    // makes the stream an error arrives (spec: code.complete). The client then sees the backend's answer first.
+    let class: String = if class == "fwd" && !classes.iter().any(|c| c == "fwd") && code["complete"].as_bool().unwrap_or(false) {
+        "answered-then-reset".into()
+    } else { class };
     // ---- what the backends read
     let probe_reqs: Vec<&SeenReq> = bobs.reqs.iter().filter(|r| r.target != "/sentinel").collect();
     let complete: Vec<&SeenReq> = bobs.reqs.iter().filter(|r| r.complete).collect();
@@ -1151,7 +1198,7 @@ fn judge(lane: &Lane, case: &Value, conc: &Concrete, cobs: &ClientObs, bobs: &Ba
         }
     }
     // (2) the class must be admissible
-    if !classes.contains(&class) {
+    if !classes.contains(&class) && class != "answered-then-reset" {
         out.push(Verdict { class: format!("class-not-admissible:{class}"), detail: ctx(json!({"admissible": classes})) });
     }
     // (3) per class
@@ -1174,8 +1221,11 @@ fn judge(lane: &Lane, case: &Value, conc: &Concrete, cobs: &ClientObs, bobs: &Ba
         // rejected: the backends saw nothing of the probe ...
         let allow_partial = adm["partial"].as_bool().unwrap_or(false);
         let allow_complete = code["complete"].as_bool().unwrap_or(false);
+        let declared: usize = if strs(&case["c"]["hdrs"]).iter().any(|t| t == "cl:3") { 3 } else { 5 };
         for r in &probe_reqs {
-            if r.complete && !allow_complete {
+            // the only request that may have got through is the probe itself with exactly the declared body
+            let is_the_probe = r.target == conc.target && r.framing == "cl" && r.body_len == declared && (h2c || r.body[..] == conc.body[..declared.min(conc.body.len())]);
+            if r.complete && !(allow_complete && is_the_probe) {
                 out.push(Verdict { class: "rejected-but-forwarded".into(), detail: ctx(json!({"request": format!("{} {} host={} {} {}", r.method, r.target, r.host, r.framing, r.body_len)})) });
             }
         }
@@ -1238,6 +1288,7 @@ fn replay(seed: u64, nlanes: usize, backend_kind: &'static str, variants: u64, d
     let cases = Arc::new(cases);
     let next = Arc::new(AtomicU64::new(0));
     let n_probes = Arc::new(AtomicU64::new(0));
+    let n_retries = Arc::new(AtomicU64::new(0));
     let violations: Arc<Mutex<Vec<Value>>> = Arc::new(Mutex::new(Vec::new()));
     let classes: Arc<Mutex<BTreeMap<String, u64>>> = Arc::new(Mutex::new(BTreeMap::new()));
     let vclasses: Arc<Mutex<BTreeMap<String, u64>>> = Arc::new(Mutex::new(BTreeMap::new()));
@@ -1247,6 +1298,7 @@ fn replay(seed: u64, nlanes: usize, backend_kind: &'static str, variants: u64, d
     let t0 = Instant::now();
     let mut handles = Vec::new();
     for lane in lanes.iter().cloned() {
+        let n_retries = n_retries.clone();
         let (env, cases, next, n_probes, violations, classes, vclasses, samples, distinct, dead, deviations) =
             (env.clone(), cases.clone(), next.clone(), n_probes.clone(), violations.clone(), classes.clone(), vclasses.clone(), samples.clone(), distinct.clone(), dead.clone(), deviations.clone());
         handles.push(std::thread::spawn(move || {
@@ -1265,6 +1317,20 @@ fn replay(seed: u64, nlanes: usize, backend_kind: &'static str, variants: u64, d
                     // a hang (no answer within the wait) is retried once before it counts
                     if o.class == "hang" {
                         o = run_case(&env, &lane, case, seed, i as u64, variant + 1000, &deviations);
+                    }
+                    // 502/503/504 with nothing written to a backend: sozu's circuit breaker / retry policy holds the lane's
+                    // backend for unavailable after earlier connections were cut by the (strict) backend. Not an answer about
+                    // framing: pause, retry; if it persists it is counted as "unavailable" (and bounded by the check driver).
+                    let mut tries = 0;
+                    while matches!(o.class.as_str(), "r502" | "r503" | "r504") && o.bobs.reqs.is_empty() && o.bobs.raw.iter().all(|r| r.2.is_empty()) && tries < 4 {
+                        tries += 1;
+                        n_retries.fetch_add(1, Ordering::Relaxed);
+                        std::thread::sleep(Duration::from_millis(120 * tries));
+                        o = run_case(&env, &lane, case, seed, i as u64, variant + 2000 * tries, &deviations);
+                    }
+                    if matches!(o.class.as_str(), "r502" | "r503" | "r504") && o.bobs.reqs.is_empty() && o.bobs.raw.iter().all(|r| r.2.is_empty()) {
+                        o.class = "unavailable".into();
+                        o.verdicts.retain(|v| !v.class.contains("class-not-admissible"));
                     }
                     n_probes.fetch_add(1, Ordering::Relaxed);
                     *classes.lock().unwrap().entry(format!("{}:{}", case["c"]["front"].as_str().unwrap(), o.class)).or_insert(0) += 1;
@@ -1307,7 +1373,7 @@ fn replay(seed: u64, nlanes: usize, backend_kind: &'static str, variants: u64, d
     stop.store(true, Ordering::SeqCst);
     for v in violations.lock().unwrap().iter() { vh::util::emit(v); }
     vh::util::emit(&json!({"kind": "summary", "cases": cases.len(), "probes": n_probes.load(Ordering::SeqCst), "backend": backend_kind, "classes": *classes.lock().unwrap(),
-        "violation_classes": *vclasses.lock().unwrap(), "distinct_case_outcomes": distinct.lock().unwrap().len(), "samples": *samples.lock().unwrap(),
+        "violation_classes": *vclasses.lock().unwrap(), "infra_retries": n_retries.load(Ordering::SeqCst), "distinct_case_outcomes": distinct.lock().unwrap().len(), "samples": *samples.lock().unwrap(),
         "wall_s": t0.elapsed().as_secs_f64()}));
 }
 
